@@ -136,13 +136,19 @@ func (f *recFS) ReadDir(name string) ([]fs.DirEntry, error) {
 }
 
 type recTemp struct {
-	fs   *recFS
-	name string
+	fs     *recFS
+	name   string
+	closed bool
 }
 
 func (t *recTemp) Name() string { return t.name }
 
 func (t *recTemp) Write(p []byte) (int, error) {
+	if t.closed {
+		// like a real file: nothing can be written once it is closed
+		t.fs.ops = append(t.fs.ops, "wr-after-close:"+hexStr(t.name))
+		return 0, fs.ErrClosed
+	}
 	if t.fs.tick() {
 		t.fs.ops = append(t.fs.ops, "wr:"+hexStr(t.name)+":"+hexBytes(p)+":0")
 		return 0, t.fs.inj("write", t.name)
@@ -157,6 +163,7 @@ func (t *recTemp) Close() error {
 		return t.fs.inj("close", t.name)
 	}
 	t.fs.ops = append(t.fs.ops, "cl:"+hexStr(t.name)+":1")
+	t.closed = true
 	return nil
 }
 
